@@ -39,6 +39,10 @@ def cons_cases(tier):
     precs = ("double",) if tier == "quick" else ("double", "single")
     for p, g, pad, m, pr in itertools.product(profs, grids, pads, modes, precs):
         yield {"prof": p, "grid": g[0], "dom": g[1], "pad": list(pad), "modes": m, "prec": pr}
+    # odd sizes: only clamped mode counts are accepted
+    for k, (g, pad) in enumerate(itertools.product(sl.ODD_GRIDS, ((0, 0), (2, 1)))):
+        for p in (profs if tier != "quick" else (profs[k % len(profs)],)):
+            yield {"prof": p, "grid": g[0], "dom": g[1], "pad": list(pad), "modes": [64, 64], "prec": "double"}
 
 
 def case_conservation(case):
@@ -149,6 +153,9 @@ def halo_cases(tier):
         g = sl.GRIDS[1]
         for h, fp in itertools.product(halos, (True, False)):
             yield {"prof": "mostm_s", "grid": g[0], "dom": g[1], "halo": h, "modes": "full", "prec": "single", "footprint": fp}
+    for k, (g, h, fp) in enumerate(itertools.product(sl.ODD_GRIDS, (None, 13.0, 20.0), (True, False))):
+        for p in (profs if tier != "quick" else (profs[k % len(profs)],)):
+            yield {"prof": p, "grid": g[0], "dom": g[1], "halo": h, "modes": [64, 64], "prec": "double", "footprint": fp}
 
 
 def case_halo(case):
@@ -175,8 +182,8 @@ def case_halo(case):
     else:
         fl = sl.fields(rng, ny, nx)
         items = [(k, q, (0.0, 0.0), BGS[n_ % 3]) for n_, (k, q) in enumerate(fl.items())]
-        items += [("impulse+shift", sl.impulse(ny, nx, 1, 2), (3 * dx, 2 * dy), 2.5), ("random+shift", fl["random"], (5 * dx, 1 * dy), -4.0)]
-        items += [("impulse(%d,%d)" % (j, i), sl.impulse(ny, nx, j, i), (0.0, 0.0), 0.0) for j, i in ((0, 0), (ny - 1, nx - 1), (2, 5))]
+        items += [("impulse+shift", sl.impulse(ny, nx, 1, 2), (3 * dx, 2 * dy), 2.5), ("random+shift", fl["random"], ((nx - 1) * dx, 1 * dy), -4.0)]
+        items += [("impulse(%d,%d)" % (j, i), sl.impulse(ny, nx, j, i), (0.0, 0.0), 0.0) for j, i in ((0, 0), (ny - 1, nx - 1), (2, nx - 2))]
     for name, q, mp, bg in items:
         kw = dict(modes=modes, footprint=fp, precision=prec, srf_bg_conc=bg)
         _, ca, fa = S(q, z, prof, dom, levels, halo=halo, meas_pt=mp, **kw)
